@@ -340,14 +340,16 @@ def add_worm_gear_mating(
     slave.mating_role = MatingSlave
     if isinstance(master, WormGear) and isinstance(slave, WormWheel):
         slave.master_gear_ratio = slave.n_teeth/master.n_starts
-        master.self_locking = \
-            friction_coefficient > master.pressure_angle.cos() * \
+        master.self_locking = bool(
+            friction_coefficient > master.pressure_angle.cos() *
             master.helix_angle.tan()
+        )
     else:
         slave.master_gear_ratio = slave.n_starts/master.n_teeth
-        slave.self_locking = \
-            friction_coefficient > slave.pressure_angle.cos() * \
+        slave.self_locking = bool(
+            friction_coefficient > slave.pressure_angle.cos() *
             slave.helix_angle.tan()
+        )
 
 
 def add_fixed_joint(
